@@ -25,7 +25,8 @@ META = {
     "object (different initial states and seeds in between). The functions are built a second time from the same model and compared "
     "entry by entry with the first build. model.functions (keys and function objects) and the params containers and leaves are "
     "compared before/after (identity). The parent process compares the per-hash-seed results with each other (term digest of V(p1) "
-    "and the float results on fixed params).",
+    "and the float results on fixed params). Supplementary concrete check at scale (not solver-based): the "
+    "frame of a 640-agent batch B is compared between the histories [simulate(A); simulate(B)] and [simulate(B)] run in different processes.",
     "bounds": "templates TA, TC, TE (stochastic), TK; T = 2; PYTHONHASHSEED in {0,1,2} (thorough: 0..7 and two random seeds); call "
     "sequences of length 4 on one function object",
     "outside": "hash seeds and processes other than the enumerated ones; longer call histories; other threads",
@@ -50,7 +51,10 @@ def u_hashseeds(rec, spec, seeds):
         env = dict(os.environ)
         env["PYTHONHASHSEED"] = hs
         env["PYTHONPATH"] = "/verif:" + env.get("PYTHONPATH", "")
-        sub = {"module": "vf.props.c09", "func": "u_pure", "prop": "C09", "unit": f"{rec.unit}/seed{k}={hs}", "kwargs": {"spec": spec}}
+        # supplementary concrete history check at scale: children alternate between the histories
+        # [simulate(A); simulate(B)] and [simulate(B)] on batches of 640 agents (B = A with two agents in
+        # the middle swapped); the parent compares the frames of B across processes
+        sub = {"module": "vf.props.c09", "func": "u_pure", "prop": "C09", "unit": f"{rec.unit}/seed{k}={hs}", "kwargs": {"spec": spec, "history": "AB" if k % 2 == 0 else "B"}}
         if rec.replay_target is not None:
             sub["replay"] = {"obligation": rec.replay_target[0].split("::", 1)[-1], "inputs": jsonable(rec.replay_target[1])}
         procs.append((hs, k, subprocess.Popen([sys.executable, "-m", "vf.subunit", json.dumps(sub)], stdout=subprocess.PIPE, stderr=subprocess.PIPE, text=True, env=env, cwd="/verif")))
@@ -100,10 +104,18 @@ def u_hashseeds(rec, spec, seeds):
             rec.obligations.append({"name": name, "unit": rec.unit, "verdict": "const", "info": {"term_digest_equal": base["digest"] == ex["digest"]}})
         else:
             rec.violation(name, {"what": "results differ between processes with different hash seeds", "observed": ex["float_results"][:8], "expected": base["float_results"][:8], "inputs": {}})
+        lb, le = base.get("large_B"), ex.get("large_B")
+        if lb is not None and le is not None:
+            name2 = f"640-agent batch B: frame after history {ex.get('history')} (seed {hs}) == after history {base.get('history')} (seed {results[0][0]})"
+            bad = [i for i, (a, b) in enumerate(zip(lb, le)) if not close(a, b, rel=1e-12)]
+            if len(lb) == len(le) and not bad:
+                rec.obligations.append({"name": name2, "unit": rec.unit, "verdict": "const"})
+            else:
+                rec.violation(name2, {"what": "the frame of a simulate call depends on the calls made before it (history [A,B] vs [B], 640 agents)", "observed": [le[i] for i in bad[:6]], "expected": [lb[i] for i in bad[:6]], "rows": bad[:6], "inputs": {}})
     return {"bounds": {"hash_seeds": seeds, "processes": len(results)}}
 
 
-def u_pure(rec, spec):
+def u_pure(rec, spec, history="AB"):
     tm = build(tuple(spec))
     model = tm.model
     funcs_before = dict(model.functions)
@@ -258,7 +270,8 @@ def u_pure(rec, spec):
     C = Conc({**dv, **{k: 1.0 for k in S.symbols if k not in dv}})
     cpar, cini, cvf = conc_params("python"), tm.init(C, 2), conc_vf(C, ref1, T)
     snapc = ([(pa, id(v), float(np.asarray(v).reshape(-1)[0]) if np.asarray(v).size else None) for pa, v in leaves(cpar)], [(k, id(v)) for k, v in cini.items()], [id(v) for v in cvf], len(cvf))
-    sim(cpar, initial_states=cini, vf_arr_list=cvf, **kw)
+    frame_c = sim(cpar, initial_states=cini, vf_arr_list=cvf, **kw)
+    floats += [float(x) for c in frame_c.columns for x in frame_c[c].values]  # compared across hash seeds by the parent
     afterc = ([(pa, id(v), float(np.asarray(v).reshape(-1)[0]) if np.asarray(v).size else None) for pa, v in leaves(cpar)], [(k, id(v)) for k, v in cini.items()], [id(v) for v in cvf], len(cvf))
     for name, ok in (("simulate does not modify params / initial_states / vf_arr_list (concrete call)", snapc == afterc), ("simulate does not modify params / initial_states (symbolic call)", [(pa, id(v)) for pa, v in leaves(p1)] == snap_sim and [(k, id(v)) for k, v in init.items()] == snap_init)):
         if ok:
@@ -288,5 +301,31 @@ def u_pure(rec, spec):
         for col in ca:
             for r, (x, y) in enumerate(zip(ca[col], cb[col])):
                 rec.prove(f"sim(p1);sim(p2);sim(p1): third==first [{col}][path{k},row={r}]", sj.x_eq(x, y), assume + list(pca), replay=sim_replay)
+    # supplementary concrete history check at scale (see u_hashseeds)
+    import jax.numpy as jnp
+
+    nL = 640
+    Cl = Conc({**dv, **{k: 1.0 for k in S.symbols if k not in dv}})
+    A0 = tm.init(Cl, nL)
+    rs = np.random.RandomState(0)
+    A_init, B_init = {}, {}
+    for k, v in A0.items():
+        a = np.asarray(v).copy()
+        if a.dtype.kind == "f":
+            a = rs.uniform(1.0, 4.0, size=nL)
+        b = a.copy()
+        i, j = nL // 2 - 1, nL // 2  # swap two agents in the middle of the batch
+        b[i], b[j] = a[j], a[i]
+        A_init[k], B_init[k] = jnp.asarray(a), jnp.asarray(b)
+    base_syms = {k: v for k, v in S.symbols.items() if not k.endswith("__2") and not k.startswith("w0") and not k.startswith("v0")}
+    rec.rng.seed(12345)  # the same parameter draws in every child process
+    large_B = []
+    for vals_l in rec.pick_assignments(base_syms, tm.assume(base_syms), n=3):
+        Cp = Conc({**{k: 1.0 for k in S.symbols}, **vals_l})
+        parL, vfL = tm.params(Cp), conc_vf(Cp, ref1, T)
+        if history == "AB":
+            sim(parL, initial_states=A_init, vf_arr_list=vfL, **kw)
+        fB = sim(parL, initial_states=B_init, vf_arr_list=vfL, **kw)
+        large_B += [float(x) for c in fB.columns for x in fB[c].values]
     digest = hashlib.sha1("|".join(sj.strip_tags(sj.z(x)).sexpr() if isinstance(sj.force(x), z3.ExprRef) else repr(x) for t in range(T) for x in r1[t].reshape(-1)).encode()).hexdigest()
-    return {"digest": digest, "float_results": floats, "bounds": {"template": tm.name}}
+    return {"digest": digest, "float_results": floats, "large_B": large_B, "history": history, "bounds": {"template": tm.name}}
